@@ -383,7 +383,56 @@ def meaning_preserved(b, seed=1):
                         continue
                     if a != e:
                         bad.append(full)
+    bad.extend(_stated_meaning(b, rnd, names))
     return sorted(set(bad))
+
+
+_STATED_ONLY = ('GIFT', 'XTRA', 'TWICE')   # variables that nothing but the user's own statements define
+
+
+def _stated_meaning(b, rnd, names):
+    """The emitted equation of a variable that only the user's statements define (AddVariable + AddTermToEquation, with
+    names requested from sectors wherever the statement says so) means the sum of what was stated - compared with the
+    statements themselves, not with the sector's equation object (which the pipeline rewrites in place)."""
+    sys_ = b.system
+    bad = []
+    stated = getattr(b, 'stated', None) or {}
+    for (sref, var), texts in sorted(stated.items()):
+        if var not in _STATED_ONLY and not var.startswith('EXP_'):
+            continue
+        s = b.sectors.get(sref)
+        if s is None:
+            continue
+        try:
+            full = s.GetVariableName(var)
+        except KeyError:
+            bad.append(sref + ':' + var)
+            continue
+        if full not in sys_.endo:
+            continue
+        loc = s.EquationBlock.GetEquationList()
+        for trial in range(2):
+            env_full = {n: Fraction(rnd.randint(-9, 9) or 1, rnd.randint(1, 7)) for n in names}
+            env = dict(env_full)
+            for v in loc:
+                env[v] = env_full.get(s.GetVariableName(v), Fraction(1))
+            try:
+                want = Fraction(0)
+                for t in texts:
+                    def rep(m):
+                        return b.sectors[m.group(1)].GetVariableName(m.group(2))
+                    text = re.sub(r'\{([A-Za-z0-9_.]+):([A-Za-z0-9_]+)\}', rep, t).strip()
+                    if text:
+                        want += _eval(ast.parse(text, mode='eval').body, env)
+                got = _eval(sys_.endo[full], env_full)
+            except _Skip:
+                continue
+            except Exception:
+                bad.append(full)
+                continue
+            if want != got:
+                bad.append(full)
+    return bad
 
 
 class _Skip(Exception):
